@@ -762,6 +762,25 @@ func notificationChannelsClosedByOwnerOnly(c *Ctx, r *Report, rule string) {
 	}
 	n := 0
 	closers := map[*ssa.Function]bool{}
+	// every id gets a channel of its own: what is registered under an id was made by that very call
+	for _, f := range prodFuncs(c, "utils") {
+		k := 0
+		eachInstr(f, func(i ssa.Instruction) {
+			mu, ok := i.(*ssa.MapUpdate)
+			if !ok || fieldOfValueDeep(mu.Map) != fChans {
+				return
+			}
+			k++
+			fresh := true
+			os := origins(mu.Value, originOpt{})
+			for _, o := range os {
+				if _, isMk := o.(*ssa.MakeChan); !isMk {
+					fresh = false
+				}
+			}
+			r.Check(fresh && len(os) > 0, rule, fnName(f), fmt.Sprintf("fresh-channel#%d", k), c.InstrPos(i), "the channel registered under a new id is made by this call: a recycled channel can still hold the outcome delivered to its previous owner after that owner gave up — the next writer reads it at once and is acknowledged with somebody else's result before its own proposal is even committed")
+		})
+	}
 	for _, f := range prodFuncs(c, "utils") {
 		eachInstr(f, func(i ssa.Instruction) {
 			cc := asCall(i)
@@ -1159,11 +1178,19 @@ func joinIsUnconditional(c *Ctx, r *Report, rule string) {
 
 // borrow runs another property's rules into a scratch report and re-labels the obligations of one of its rules (optionally
 // only those whose key contains sub) as obligations of rule `to` of this report.
+var borrowDepth = 0
+
 func borrow(c *Ctx, r *Report, fromProp, fromRule, to, sub string) int {
 	f := registry[fromProp]
 	if f == nil {
 		return 0
 	}
+	if borrowDepth > 0 {
+		// a borrowed check does not borrow in turn (properties borrow from each other: C14 <-> C17)
+		return 0
+	}
+	borrowDepth++
+	defer func() { borrowDepth-- }()
 	tmp := NewReport(r.Prop)
 	f(c, tmp, "quick")
 	n := 0
@@ -1290,6 +1317,8 @@ func enumSelectsImplementation(c *Ctx, r *Report, rule string) {
 // enumValidatedAtCreation: some proposer that marshals a client-supplied message tests the getter (comparison, or
 // membership in the generated name table) and returns an error on one side of the test, before the proposal.
 func enumValidatedAtCreation(c *Ctx, getter string) (bool, string) {
+	oneSided := ""
+	defer func() { _ = oneSided }()
 	for _, sc := range validationScopes(c) {
 		f := sc.fn
 		for _, ifi := range allIfs(f) {
@@ -1335,12 +1364,32 @@ func enumValidatedAtCreation(c *Ctx, getter string) (bool, string) {
 			if !uses {
 				continue
 			}
+			// the test must be closed: membership in a table (comma-ok lookup keyed by the value), or an equality
+			// against a known value; a single ordering comparison leaves the other side of the signed range open
+			closed := false
+			for _, l := range condLeaves(ifi.Cond, 0) {
+				if ex, isEx := l.(*ssa.Extract); isEx {
+					if lk, isL := ex.Tuple.(*ssa.Lookup); isL && lk.CommaOk {
+						closed = true
+					}
+				}
+			}
+			if b, isB := ifi.Cond.(*ssa.BinOp); isB && (b.Op == token.EQL || b.Op == token.NEQ) {
+				closed = true
+			}
+			if !closed {
+				oneSided = c.InstrPos(ifi)
+				continue
+			}
 			for _, pol := range []bool{true, false} {
 				if sc.rejected(ifi, pol) {
 					return true, "the creation path (" + fnName(f) + ") rejects values it does not know before proposing"
 				}
 			}
 		}
+	}
+	if oneSided != "" {
+		return false, "the only test of " + getter + "() before the proposal is a one-sided comparison (" + oneSided + "): a proto3 enum is an open, signed int32, so values on the other side (negative ones) are committed, every replica builds the object with a nil implementation and panics on the first operation that uses it — again on every replay"
 	}
 	return false, "no proposer tests " + getter + "() before the proposal: a request with an out-of-range value is committed, every replica builds the object with a nil implementation and panics on the first operation that uses it — again on every replay"
 }
